@@ -444,7 +444,10 @@ struct PermissionResult {
     bool had_failure { false };
 };
 
-static const auto write_perm_mask = filesystem::perms::group_write | filesystem::perms::owner_write | filesystem::perms::others_write;
+// NOTE: whether a file can be written to by whoever owns it is what decides if it is read-only, and is all that is
+//       changed for the time it is written. The bits for the group and for others neither help its owner to write
+//       to it, nor are they to be handed out just because we want to.
+static const auto write_perm_mask = filesystem::perms::owner_write;
 
 static PermissionResult fix_permissions_if_needed(std::ostream& out, const Options& options, const std::string& output_file)
 {
